@@ -110,11 +110,14 @@ def check(prop, tier='quick', seed=None, budget_s=None):
     base = seed * 1_000_000
     cap = plan.get('cap', 60.0)
     tmp = tempfile.mkdtemp(prefix=f'simfggs-{prop}-')
-    replay_dir = os.path.join(VERIF, 'replays')
+    replay_dir = os.environ.get('VERIF_REPLAY_DIR') or os.path.join(VERIF, 'replays')
     os.makedirs(replay_dir, exist_ok=True)
     for f in os.listdir(replay_dir):
         if f.startswith(prop + '-'):
-            os.remove(os.path.join(replay_dir, f))
+            try:
+                os.remove(os.path.join(replay_dir, f))
+            except FileNotFoundError:
+                pass
     procs, outs = [], []
     legs = plan.get('legs') or [{'hashseed': 0, 'pyflags': []}]
     if tier == 'thorough':
@@ -274,8 +277,9 @@ def _finish(prop, tier, seed, recs, det, worker_fail, logs_tail, engine, plan, t
               'sampling, not enumeration: nothing is claimed beyond the explored seeds',
               'replay is a pure function of the replay file and the code under /repo'],
           'wall_s': round(wall, 2), 'violations': len(confirmed)}
-    os.makedirs(os.path.join(VERIF, 'evidence'), exist_ok=True)
-    jdump(ev, os.path.join(VERIF, 'evidence', f'{prop}.json'))
+    evdir = os.environ.get('VERIF_EVIDENCE_DIR') or os.path.join(VERIF, 'evidence')
+    os.makedirs(evdir, exist_ok=True)
+    jdump(ev, os.path.join(evdir, f'{prop}.json'))
     print(f"[{prop}/{tier}] runs={n} status={by_status} distinct={len(shapes)} steps={steps} wall={wall:.1f}s "
           f"det={det_checked}/{len(det_mismatch)} mismatches")
     for ln in lines:
